@@ -234,8 +234,9 @@ def _which_run(starts, idx):
     return j
 
 
-def validate_chunk(runs, workdir, tag, stats, timeout=300):
-    """Validate `runs` with one TLC process (-continue) and return a Verdict per run."""
+def validate_chunk(runs, workdir, tag, stats, timeout=300, module="TraceDriver", cfg=None):
+    """Validate `runs` with one TLC process (-continue) and return a Verdict per run.
+    module/cfg: a trace module that extends TraceDriver (C07 uses TraceTotal); default TraceDriver."""
     path = os.path.join(workdir, "trace-%s.ndjson" % tag)
     evs, starts = [], []
     for r in runs:
@@ -244,7 +245,7 @@ def validate_chunk(runs, workdir, tag, stats, timeout=300):
     evs.append({"ev": "End"})
     vlib.write_ndjson(path, evs)
     for attempt in (0, 1):      # a JVM that starves on an overloaded machine is retried once, with more time
-        res = vlib.tlc("TraceDriver", "TraceDriver", workers=1, env={"TRACE": path}, timeout=timeout * (1 + 3 * attempt),
+        res = vlib.tlc(module, cfg or module, workers=1, env={"TRACE": path}, timeout=timeout * (1 + 3 * attempt),
                        xss="64m", xmx="1g", extra=("-continue",))
         if re.search(r'<<"END", %d>>' % len(evs), res.out):
             break
@@ -286,13 +287,13 @@ def validate_chunk(runs, workdir, tag, stats, timeout=300):
     return verdicts
 
 
-def validate(runs, chunk=10, parallel=12, timeout=300):
+def validate(runs, chunk=10, parallel=12, timeout=300, module="TraceDriver", cfg=None):
     """Validate all runs; returns (verdicts, stats)."""
     workdir = vlib.scratch("trv")
     stats = {"tlc_runs": 0, "states": 0, "generated": 0, "wall": 0.0}
     chunks = [runs[i:i + chunk] for i in range(0, len(runs), chunk)]
     with ThreadPoolExecutor(max_workers=parallel) as ex:
-        futs = [ex.submit(validate_chunk, c, workdir, str(i), stats, timeout) for i, c in enumerate(chunks)]
+        futs = [ex.submit(validate_chunk, c, workdir, str(i), stats, timeout, module, cfg) for i, c in enumerate(chunks)]
         res = [f.result() for f in futs]
     verdicts = [v for vs in res for v in vs]
     shutil.rmtree(workdir, ignore_errors=True)
